@@ -901,14 +901,15 @@ func Run(r *ev.Run) {
 		r.Violate("harness/not-instrumented", "C15 needs the sched build", nil)
 		return
 	}
-	// six independent work items, one worker process each (the net hooks and the
+	// ten work items (the two-handshakes scenario is split into four shards of its schedule tree), one worker process each (the net hooks and the
 	// teamserver globals are per process)
-	par.Run(r, 6, 25*time.Minute, func(i, n int, r *ev.Run) {
+	par.Run(r, 10, 25*time.Minute, func(i, n int, r *ev.Run) {
 		if n == 1 {
 			runConformance(r)
 			runIntegrity(r)
 			runTables(r, -1)
 			runTablesThreeClients(r)
+			runTablesTwoHandshakes(r, 0, 1)
 			return
 		}
 		switch i {
@@ -918,6 +919,8 @@ func Run(r *ev.Run) {
 			runIntegrity(r)
 		case 5:
 			runTablesThreeClients(r)
+		case 6, 7, 8, 9:
+			runTablesTwoHandshakes(r, i-6, 4)
 		default:
 			runTables(r, i-2)
 		}
